@@ -187,7 +187,15 @@ def analyse_engine(ctx: Ctx, ci, f, cfg, in_loop):
                 outside_r = [_Subst({k: v for k, v in defs_all.items() if k != p.id}, 3).visit(copy.deepcopy(d)) for d in outside]
                 ok_entry = bool(outside) and all(any(is_self_attr(x, "current_population", selfn) for x in ast.walk(d)) for d in outside_r)
                 definite = bool(outside) and any(any(is_self_attr(x, None, selfn) and x.attr in ("_history", "history", "all_individuals", "_sprout_seed", "best_individual") for x in ast.walk(d)) for d in outside_r)
-                obs.append(ctx.ob("R11.2", f, call, status=OK if ok_entry else VIOLATION if definite else INCONCLUSIVE, detail=f"loop-entry value of `{p.id}` derives from self.current_population" if ok_entry else f"{ci.name}: the first generation of a metaepoch is not bred from the deme's current population (`{p.id}` = {[norm(d) for d in outside]})", construct=label + ":entry"))
+                cache_verdict = None
+                if not ok_entry and not definite and len(outside_r) == 1 and is_self_attr(outside_r[0], None, selfn):
+                    # the population to breed from is kept in an attribute between metaepochs: it must be the last recorded
+                    # generation at EVERY exit that recorded generations (typestate: attribute == carrier?)
+                    cache_verdict = _kept_population_consistent(ctx, f, cfg, selfn, outside_r[0].attr, p.id)
+                if cache_verdict is not None:
+                    obs.append(ctx.ob("R11.2", f, cache_verdict[2] if cache_verdict[2] is not None else call, status=cache_verdict[0], detail=cache_verdict[1], construct=label + ":entry"))
+                else:
+                    obs.append(ctx.ob("R11.2", f, call, status=OK if ok_entry else VIOLATION if definite else INCONCLUSIVE, detail=f"loop-entry value of `{p.id}` derives from self.current_population" if ok_entry else f"{ci.name}: the first generation of a metaepoch is not bred from the deme's current population (`{p.id}` = {[norm(d) for d in outside]})", construct=label + ":entry"))
             elif isinstance(p, ast.Subscript) and isinstance(p.value, ast.Name) and norm(p.slice) == "-1" and any(isinstance(x, ast.Call) and isinstance(x.func, ast.Attribute) and x.func.attr == "append" and norm(x.func.value) == p.value.id for b in body for x in ast.walk(b.ast)):
                 # the generations are chained in a local list: parents = L[-1], and the step's result is appended to L
                 L_ = p.value.id
@@ -372,6 +380,47 @@ def r11_4(ctx: Ctx):
     return obs
 
 
+def _kept_population_consistent(ctx, f, cfg, selfn, attr, carrier):
+    """`carrier = self.<attr>` at entry; -> (status, detail, node).  On every path to an exit on which generations were appended
+    to the history, `self.<attr> = carrier` must follow the last rebinding of the carrier."""
+    from ..cfg import typestate
+
+    bad = []
+
+    def node_fn(n, st):
+        eq, app = st
+        a = n.ast
+        if a is None:
+            return [st]
+        if n.kind == "stmt" and isinstance(a, (ast.Assign, ast.AnnAssign)) and getattr(a, "value", None) is not None:
+            tg = a.targets if isinstance(a, ast.Assign) else [a.target]
+            if any(is_self_attr(t, attr, selfn) for t in tg):
+                eq = isinstance(a.value, ast.Name) and a.value.id == carrier
+            elif any(isinstance(t, ast.Name) and t.id == carrier for t in tg):
+                eq = is_self_attr(a.value, attr, selfn)
+        if n.kind == "stmt" and any(isinstance(c, ast.Call) and isinstance(c.func, ast.Attribute) and c.func.attr == "append" and is_self_attr(c.func.value, "_history", selfn) for c in ast.walk(a)):
+            app = True
+        if n.kind == "return" and app and not eq:
+            bad.append(n)
+        return [(eq, app)]
+
+    at, exits, parent = typestate(cfg, [(False, False)], node_fn)
+    ex = exits.normal() if hasattr(exits, "normal") else exits
+    stale = [s_ for s_ in ex if s_[1] and not s_[0]]
+    if bad or stale:
+        n0 = bad[0] if bad else None
+        return (VIOLATION, f"{f.short}: the population to breed from is kept in `self.{attr}` between metaepochs, but on a path that records generations in the history{(' (the return at line %d)' % n0.lineno) if n0 is not None else ''} `self.{attr}` is not set to the last generation: the next metaepoch breeds its first generation from an older population than the one recorded last", n0.stmt if n0 is not None else None)
+    # the constructor must initialise the attribute with the population it records
+    init = f.cls.methods.get("__init__") if f.cls is not None else None
+    if init is not None:
+        isn = init.self_name()
+        st_ = [y for y in body_walk(init.node) if isinstance(y, ast.Assign) and any(is_self_attr(t, attr, isn) for t in y.targets)]
+        hist = [c for c in body_walk(init.node) if isinstance(c, ast.Call) and isinstance(c.func, ast.Attribute) and c.func.attr == "append" and is_self_attr(c.func.value, "_history", isn)]
+        if len(st_) == 1 and hist and isinstance(st_[0].value, ast.Name) and any(isinstance(x, ast.Name) and x.id == st_[0].value.id for x in ast.walk(hist[-1])):
+            return (OK, f"{f.short}: `self.{attr}` is the last recorded generation at every exit (and the constructor's starting population)", None)
+    return (INCONCLUSIVE, f"{f.short}: breeds from `self.{attr}`; cannot tell what the constructor puts there", None)
+
+
 def r11_5(ctx: Ctx):
     """R11.5 an individual of a new generation that did not belong to the previous one is newly evaluated: fitness is carried over only for rows whose genome is unchanged in every coordinate, everything else is re-evaluated before it is recorded (R02.1, R02.2, R02.4)."""
     from . import c02
@@ -383,4 +432,12 @@ def r11_5(ctx: Ctx):
     return out
 
 
-RULES = [("R11", r11, 12), ("R11.4", r11_4, 2), ("R11.5", r11_5, 16)]
+def r11_6(ctx: Ctx):
+    """R11.6 only the deme itself records generations: nothing outside the deme's own methods writes `<deme>._history` (a
+    generation list registered by other code - e.g. a repeated metaepoch - is not bred from the generation recorded before it)."""
+    from .common import foreign_history_writes
+
+    return foreign_history_writes(ctx, "R11.6", "the generations it registers were not bred from the generation recorded before them, nor newly evaluated")
+
+
+RULES = [("R11", r11, 12), ("R11.4", r11_4, 2), ("R11.5", r11_5, 16), ("R11.6", r11_6, 1)]
